@@ -42,6 +42,9 @@ class Chain:
             hops = {i for i in range(n) if refunds and rng.random() < 0.6}
         self.rhops = sorted(hops)
         refund = {self.pks[i]: E.public_key(self.rseeds[i]) for i in hops} or None
+        if refund and n % 2 == 0:          # refund keys may be given as key objects as well as bytes
+            from nacl.signing import VerifyKey
+            refund = {k: VerifyKey(v) for k, v in refund.items()}
         old = T.time
         T.time = lambda: CREATE
         try:
@@ -49,8 +52,14 @@ class Chain:
         finally:
             T.time = old
         self.refund = refund or {}
-        self.setup = AMHL.setup(n, seed)
-        self.y = list(self.setup[0])
+        if seed:
+            self.setup = AMHL.setup(n, seed)
+            self.y = list(self.setup[0])
+        else:
+            # an empty seed: the chain is sampled from fresh randomness inside setup_amhl; each party's partial secret is
+            # the last element of its entry, and the views are rebuilt from the returned tweak points
+            self.y = [self.res[self.pks[i]][3] for i in range(n)]
+            self.setup = (tuple(self.y), tuple(self.res[self.pks[i]][2] for i in range(n)))
         self.problems = []
         # independent check of the setup: hop i's tweak point is the sum of the points of secrets 0..i
         acc = 0
@@ -110,7 +119,8 @@ def chain_for(n, tag=0, refunds=False, flags='00'):
     key = (n, tag, refunds, flags)
     if key not in _chains:
         rng = random.Random(f'chain{n}/{tag}')
-        _chains[key] = (Chain(n, rng.randbytes(32), rng, refunds, flags), Chain(n, rng.randbytes(32), rng))
+        # (an empty seed is allowed: the chain is then sampled from fresh randomness, and must still be one consistent chain)
+        _chains[key] = (Chain(n, b'' if tag % 5 == 4 else rng.randbytes(32), rng, refunds, flags), Chain(n, rng.randbytes(32), rng))
     return _chains[key]
 
 
@@ -144,7 +154,7 @@ def record_random(args):
         r = random.Random(f'{seed}/{j}')
         n = r.choice([2, 3, 4, 5, 6, 8])
         try:
-            a, b = chain_for(n, tag=r.randrange(3) + 1000 * seed, refunds=r.random() < 0.5, flags=r.choice(['00', '00', '01', '02', '80', '06']))
+            a, b = chain_for(n, tag=r.randrange(5) + 1000 * seed, refunds=r.random() < 0.5, flags=r.choice(['00', '00', '01', '02', '80', '06']))
         except Exception as e:
             from ..scncheck import raised_in_repo
             if not raised_in_repo(e):
